@@ -504,7 +504,7 @@ def run_async(w: World, coro, op: dict):
     w.cur_loop = loop
     try:
         try:
-            return ("ok", loop.run_until_complete(coro))
+            return ("ok", common.norm(loop.run_until_complete(coro)))
         except Inconclusive:
             raise
         except Violation:
@@ -532,6 +532,19 @@ def do_render(w: World, op: dict, t, twin):
     w.check_capacity()
     if _outage_error(w, lookups, out):
         return
+    seen: dict[str, tuple] = {}
+    for lk in lookups:
+        if lk.served is not None:
+            if lk.name in seen and seen[lk.name] != lk.served:
+                # a permitted-stale entry was evicted and re-read in the middle of this render
+                # (recursive partials, small capacity): one name, two admissible versions.
+                # Every lookup has been judged; the counterpart can serve only one version per
+                # name, so only attribution (R4) is checked on the text.
+                w.count("seq_diff_skipped_ambiguous")
+                if out[0] == "ok":
+                    check_tokens(out[1], d, op.get("g_bound"), w.cfg.get("env_globals") or {})
+                return
+            seen[lk.name] = lk.served
     with w.with_clone(stale):
         exp = canon_call(twin.render, **w.data_for(d, "ref"))
     if out != exp:
@@ -802,17 +815,17 @@ def execute(plan: dict) -> dict:
                 if k == "load":
                     t, twin = do_load(w, op)
                     if t is not None:
-                        w.handles[op["h"]] = (t, twin)
+                        w.handles[op["h"]] = (t, twin, op.get("g"))
                     else:
                         w.handles.pop(op["h"], None)
                 elif k == "render":
                     h = w.handles.get(op["h"])
                     if h is not None:
-                        do_render(w, op, *h)
+                        do_render(w, {**op, "g_bound": h[2]}, h[0], h[1])
                 elif k == "lr":
                     t, twin = do_load(w, op)
                     if t is not None:
-                        do_render(w, {**op, "id": f"{op['id']}r"}, t, twin)
+                        do_render(w, {**op, "id": f"{op['id']}r", "g_bound": op.get("g")}, t, twin)
                 elif k in ("write", "delete"):
                     apply_mutation(w, op)
                 elif k == "unavail":
